@@ -151,6 +151,7 @@ def refresh_rule(db, rep, r1, M, classes):
                 continue
             fam_table = fams(db, f)
             exits = success_exits(f)
+            same_tree_stale = []
             for kind, ev in evs:
                 k2 = kind
                 if f.name in DEFERRED and kind == 'membership':
@@ -170,12 +171,24 @@ def refresh_rule(db, rep, r1, M, classes):
                         # frozen exception: identical syntax tree -> nothing to refresh
                         paths = enumerate_paths(f, p, [bad[0][1]], avoid=sites, limit=50)
                         if paths and all(_same_tree_exception(f, path) for path in paths):
+                            # nothing else depends on the layout of the text, but the constituent's own record does: the stored tree carries
+                            # token positions, and a schema built from the same content reports the positions of the stored text
+                            own = [q for q, _ in call_sites(f, lambda n_: n_.get('cs') in (SCHEMA + '::ParseCst', SCHEMA + '::TriggerParse', SCHEMA + '::UpdateState', SCHEMA + '::TranslateAll', SCHEMA + '::Translate'))]
+                            if paths_avoiding(f, [p], own, exits):
+                                same_tree_stale.append((n, kind))
                             continue
                         missing.append(label)
                 if missing:
                     r1.violation(inst, f.loc(n), 'after `%s` (%s change) a success exit is reachable without %s: the cached analysis goes stale' % (n.get('txt', '')[:60], kind, ' and without '.join(missing)))
                 else:
                     r1.ok(inst, 'followed by ' + ', '.join(l for l, _ in fam_table[k2]), f.loc(n))
+            if same_tree_stale:
+                n, kind = same_tree_stale[0]
+                r1.violation('%s::%s:same-tree-positions' % (short, f.name.split('::')[-1]), f.loc(n),
+                             'after `%s` the path taken when the new text has the same syntax tree stores the text but never re-parses the constituent itself: the reported tree keeps the token positions of the '
+                             'previous text ("X1   ∪   X1" -> "X1∪X1": positions 14-16 in a 10-character text), a schema built from the same content reports 8-10' % n.get('txt', '')[:60])
+            elif f.name.endswith('Schema::SetDefinitionFor'):
+                r1.ok('%s::%s:same-tree-positions' % (short, f.name.split('::')[-1]), 'the same-tree path re-parses the constituent itself (or there is no such path)', '%s:%d' % (f.file, f.line))
         rep.note('mutators_' + short, n_mut)
 
 def _rest(db, rep, M):
@@ -416,7 +429,25 @@ def stale_audit_rule(db, rule):
         return
     for f in callers:
         inst = f.name.split('::')[-1]
-        parse_pos = [f.position_of(n) for n in f.calls() if n.get('cs') == SCHEMA + '::ParseCst']
+        parse_calls = [n for n in f.calls() if n.get('cs') == SCHEMA + '::ParseCst']
+        # the layout-only refresh: a re-audit of the edited constituent alone on the path where the new text has the same syntax tree. Nothing the
+        # audit reads has changed except, possibly, the constituent's own record, so that record has to be cleared first (then the audit runs in
+        # the state the from-scratch analysis audits this constituent in: every record it reads is current, its own is empty).
+        from engine.cfgq import dominating_guards
+        for n in list(parse_calls):
+            pos = f.position_of(n)
+            if pos is None or not _same_tree_exception(f, dominating_guards(f, pos)):
+                continue
+            arg = (f.stmts[n['args'][0]].get('txt') or '?') if n.get('args') else '?'
+            own_reset = [f.position_of(c) for c in f.calls() if (c.get('cs') or '').endswith('ParsingInfo::Reset') and 'obj' in c
+                         and arg in (f.stmts[c['obj']].get('txt') or '') and _same_tree_exception(f, dominating_guards(f, f.position_of(c)) if f.position_of(c) is not None else [])]
+            own_reset = [q for q in own_reset if q is not None]
+            if own_reset and not paths_avoiding(f, [f.graph()[1]], own_reset, [(pos, '')]):
+                rule.ok(inst + ':same-tree', 'the layout-only re-audit of `%s` is preceded by the reset of its own record' % arg, f.loc(n))
+                parse_calls.remove(n)
+        if not parse_calls:
+            continue
+        parse_pos = [f.position_of(n) for n in parse_calls]
         resets = []
         for n in f.calls():
             if n.get('cs') == SCHEMA + '::ResetInfo':
